@@ -5,7 +5,7 @@
    resulting state; an overlap loop that runs to its end leaves pacman's vitals alone. *)
 From Coq Require Import ZArith List Bool Arith Lia.
 From Abm Require Import Base.Sx Grid.Overlap Grid.Grid Grid.Move Grid.Vis Grid.Observe Grid.Play
-  Grid.BattleSim Grid.PacmanSim Ctl.Managers Proofs.Grid_proofs.
+  Grid.BattleSim Grid.PacmanSim Ctl.Managers Proofs.Grid_proofs Proofs.Move_proofs.
 Import ListNotations.
 Open Scope Z_scope.
 
@@ -133,6 +133,88 @@ Proof.
   destruct (overlap_loop cf false (cell_get (g_cells g4) p') g4 r3) as [g5 r5|g5 r5|g5 r5] eqn:H2.
   - intros _ _. exists g4, p', r3. cbn. split; [exact H2|]. split; [exact Hp|].
     eapply overlap_loop_go_pacman; exact H2.
+  - cbn; intros _ E; lia.
+  - cbn; discriminate.
+Qed.
+
+(* ---- the baddies' turn leaves pacman's record alone (when pacman is not listed as a baddie) ------- *)
+Definition tgrid (t : tres) : gstate := match t with TOk g | TErr g => g end.
+
+Lemma agent_remove s i p s1 j : remove s i p = Some s1 -> agent s1 j = agent s j.
+Proof. intro H. unfold agent. rewrite (remove_agents _ _ _ _ H). reflexivity. Qed.
+
+Lemma tele_frame (f : bool) g i from to j : j <> i ->
+  agent (tgrid ((if f then tele_fixed else tele_found) g i from to)) j = agent g j.
+Proof.
+  intro N. destruct f.
+  - unfold tele_fixed. destruct (inside g to); [|reflexivity].
+    destruct (query g i to); [|reflexivity].
+    destruct (remove g i from) as [g1|] eqn:R; [|reflexivity]. cbn [tgrid].
+    destruct (place_keeps g1 i to) as (_ & _ & _ & H). rewrite H by exact N.
+    eapply agent_remove; exact R.
+  - unfold tele_found. destruct (remove g i from) as [g1|] eqn:R; [|reflexivity].
+    destruct (inside g1 to); cbn [tgrid].
+    + destruct (place_keeps g1 i to) as (_ & _ & _ & H). rewrite H by exact N.
+      eapply agent_remove; exact R.
+    + eapply agent_remove; exact R.
+Qed.
+
+Lemma teleport_frame f g i j : j <> i -> agent (tgrid (teleport f g i)) j = agent g j.
+Proof.
+  intro N. unfold teleport. destruct (agent g i) as [a|]; [|reflexivity].
+  destruct (a_pos a) as [p|]; [|reflexivity].
+  destruct (cell_eqb p tunnel_a); [apply tele_frame, N|].
+  destruct (cell_eqb p tunnel_b); [apply tele_frame, N|reflexivity].
+Qed.
+
+Definition pac_not_baddie (cf : pcfg) : Prop :=
+  forall k b, nth k (pc_bad cf) None = Some b -> b <> pc_pac cf.
+
+Lemma baddies_loop_frame f cf moves : forall k g, pac_not_baddie cf ->
+  agent (tgrid (baddies_loop f cf k moves g)) (pc_pac cf) = agent g (pc_pac cf).
+Proof.
+  induction moves as [|mv rest IH]; intros k g NB; cbn [baddies_loop]; [reflexivity|].
+  destruct (nth k (pc_bad cf) None) as [b|] eqn:Hb; [|reflexivity].
+  assert (N : pc_pac cf <> b) by (intro E; apply (NB k b Hb); symmetry; exact E).
+  pose proof (move_drift_frame g b mv) as HF.
+  destruct (move_drift g b mv) as [ok g1| | |]; try reflexivity.
+  pose proof (teleport_frame f g1 b (pc_pac cf) N) as HT.
+  destruct (teleport f g1 b) as [g2|g2]; cbn [tgrid] in HT |- *.
+  - rewrite (IH (S k) g2 NB), HT. apply HF, N.
+  - rewrite HT. apply HF, N.
+Qed.
+
+(* a counting step: pacman's record after the step is the one it had after its own move, teleport and
+   meal -- the baddies' turn and the final overlap loop did not touch it *)
+Theorem pm_step_counted_pacman_frame f cf st acts :
+  pac_not_baddie cf ->
+  ps_bad st = false -> ps_bad (pm_step_gen f cf st acts) = false ->
+  ps_count (pm_step_gen f cf st acts) = ps_count st + 1 ->
+  exists ca b g1 g2 p g3 r3,
+    assoc acts (pc_pac cf) = Some ca /\
+    move_drift (ps_grid st) (pc_pac cf) ca = MOk b g1 /\
+    teleport f g1 (pc_pac cf) = TOk g2 /\ pac_cell cf g2 = Some p /\
+    overlap_loop cf true (cell_get (g_cells g2) p) g2
+      (radd (ps_rew st) (pc_pac cf) (if b then pc_entropy cf else pc_bad_move cf)) = LGo g3 r3 /\
+    agent (ps_grid (pm_step_gen f cf st acts)) (pc_pac cf) = agent g2 (pc_pac cf).
+Proof.
+  intros NB Hb. unfold pm_step_gen.
+  destruct (assoc acts (pc_pac cf)) as [ca|]; [|cbn; discriminate].
+  destruct (move_drift (ps_grid st) (pc_pac cf) ca) as [b g1| | |] eqn:HM; try (cbn; discriminate).
+  destruct (teleport f g1 (pc_pac cf)) as [g2|g2] eqn:HT; [|cbn; discriminate].
+  destruct (pac_cell cf g2) as [p|] eqn:HP; [|cbn; discriminate].
+  destruct (overlap_loop cf true (cell_get (g_cells g2) p) g2 _) as [g3 r3|g3 r3|g3 r3] eqn:H1;
+    [| cbn; intros _ E; lia | cbn; discriminate].
+  destruct (script cf g3 (ps_count st)) as [moves|]; [|cbn; discriminate].
+  pose proof (baddies_loop_frame f cf moves 0%nat g3 NB) as HB.
+  destruct (baddies_loop f cf 0 moves g3) as [g4|g4]; [|cbn; discriminate].
+  cbn [tgrid] in HB.
+  destruct (pac_cell cf g4) as [p'|]; [|cbn; discriminate].
+  destruct (overlap_loop cf false (cell_get (g_cells g4) p') g4 r3) as [g5 r5|g5 r5|g5 r5] eqn:H2.
+  - intros _ _. exists ca, b, g1, g2, p, g3, r3. cbn.
+    repeat split; try reflexivity; try assumption.
+    rewrite (overlap_loop_go_pacman _ _ _ _ _ _ _ H2), HB.
+    eapply overlap_loop_go_pacman; exact H1.
   - cbn; intros _ E; lia.
   - cbn; discriminate.
 Qed.
